@@ -9,6 +9,13 @@ from extract import pyexpr
 from extract.ratexpr import Tr
 
 ID = "C18"
+#: functions the hand-written model transcribes: their control skeleton (extract/shape.py) is regenerated into
+#: Gen/C18.lean and compared with the literal in Properties/C18.lean (`modelled_functions_have_the_transcribed_shape`)
+SHAPES = [
+    ("shapeCorrelations", "mlinsights/metrics/correlations.py", "non_linear_correlations"),
+    ("shapeComparableMetric", "mlinsights/metrics/scoring_metrics.py", "comparable_metric"),
+    ("shapeR2Comparable", "mlinsights/metrics/scoring_metrics.py", "r2_score_comparable"),
+]
 SRC_COR = "mlinsights/metrics/correlations.py"
 SRC_MET = "mlinsights/metrics/scoring_metrics.py"
 LEAN_TARGETS = ["MlVerif.Gen.C18", "MlVerif.Model.Corr", "MlVerif.Lemmas.Corr", "MlVerif.Properties.C18"]
@@ -187,6 +194,10 @@ def _extract_correlations(src):
                 fin["tuple_ok"] = (ast.unparse(e[1]), ast.unparse(e[2])) == ("mini", "maxi")
         elif isinstance(st, ast.Return) and st.value is not None:
             fin["plain"] = trf.expr(st.value)
+    # which loop body the statement `mod = clone(model)` belongs to (one fresh, unfitted copy per coefficient)
+    clone_in = [ast.unparse(n.target) for n in ast.walk(fn) if isinstance(n, ast.For)
+                and any(isinstance(b, ast.Assign) and ast.unparse(b) == "mod = clone(model)" for b in n.body)]
+    facts["__clone_in"] = clone_in
     return g, facts, c_expr, co_rad, co_exp, var_arg, upd, loops, fin
 
 
@@ -328,6 +339,8 @@ def frameFirstDrawTest : String := %(f_first)s
 def arrayFirstDrawTest : String := %(a_first)s
 def minmaxReturnsMiniMaxi : Bool := %(tuple_ok)s
 def loops : List String := %(loops)s
+/-- loop variable(s) of the loop(s) whose body contains `mod = clone(model)` -/
+def cloneInLoop : List String := %(clone_in)s
 /-- the statements around the learner (source text) -/
 def pipeline : List (String × String) := %(pipeline)s
 
@@ -355,6 +368,7 @@ end MlVerif.Gen.C18
         "arrayZeroed": b(g["arrayZeroed"]), "frameFlag": _q(g["frameFlag"]), "arrayFlag": _q(g["arrayFlag"]),
         "frameCopies": b(g["frameCopies"]), "arrayCopies": b(g["arrayCopies"]),
         "loops": "[" + ", ".join(_q(l) for l in loops) + "]",
+        "clone_in": "[" + ", ".join('"%s"' % x for x in facts.pop("__clone_in", [])) + "]",
         "pipeline": _table(sorted(facts.items())),
         "known": _table(known), "resolves": "[" + ", ".join(_q(r) for r in resolves) + "]",
         "branches": "[" + ", ".join("(%s, %s)" % (c, a) for c, a in branches) + "]", "fall": fall,
@@ -697,6 +711,17 @@ def _learner(name):
         return LinearRegression()
     if name == "tree":
         return DecisionTreeRegressor(max_depth=3, random_state=0)
+    if name == "linear-keeps-first-fit":
+        class KeepsFirstFit(LinearRegression):
+            """a model whose `fit` is not a full reset (what warm_start=True models do): once fitted, the object keeps
+            what it learned first.  A fresh clone is unfitted, so every coefficient computed by its own clone is the
+            one LinearRegression gives."""
+
+            def fit(self, X, y, sample_weight=None):
+                if hasattr(self, "coef_"):
+                    return self
+                return LinearRegression.fit(self, X, y)
+        return KeepsFirstFit()
     return _stubs()[name]()
 
 
@@ -752,7 +777,7 @@ def _check_corr(cfg):
                 bad.append((kind + ":minmax-changes-mean", "the mean differs between minmax=True and minmax=False (same seed)",
                             {"minmax": cor.tolist(), "plain": res[kind][2].tolist()}, "equal"))
             # LinearRegression learns the identity only from a non-constant training half: continuous data
-            if cfg["model"] == "identity" or (cfg["model"] == "linear" and not cfg.get("integers")):
+            if cfg["model"] == "identity" or (cfg["model"] in ("linear", "linear-keeps-first-fit") and not cfg.get("integers")):
                 dg = numpy.diag(cor)
                 ok = (dg == 1.0).all() if cfg["model"] == "identity" else (numpy.abs(dg - 1.0) <= 1e-9).all()
                 if not ok:
@@ -783,6 +808,8 @@ def _check_r2(cfg):
     n = cfg["n"]
     y = rs.rand(n) * 5 + 0.1
     p = y * (1 + 0.3 * rs.randn(n)).clip(0.2, 3) + 0.05
+    sc = cfg.get("scale", 1.0)          # "all positive targets/predictions": also very small ones (1e-9 .. 1e-6)
+    y, p = y * sc, p * sc
     w = rs.rand(n) + 0.1 if cfg.get("weights") else None
 
     def sq(a):
@@ -825,7 +852,7 @@ def _corr_configs(ctx, count):
         d = rng.choice([1, 1, 2, 2, 3, 3, 4, 5])
         cfg = {"seed": rng.randrange(1 << 30), "np_seed": rng.randrange(1 << 30), "n": rng.randint(4, 60), "d": d,
                "draws": rng.choice([1, 1, 2, 3, 5]), "model": rng.choice(["linear", "linear", "tree", "identity", "constant",
-                                                                           "sign"]),
+                                                                           "sign", "linear-keeps-first-fit"]),
                "integers": rng.random() < 0.3, "int_dtype": rng.random() < 0.5,
                "constant": [],
                "collinear": [(0, d - 1)] if (d >= 2 and rng.random() < 0.3) else []}
@@ -855,6 +882,8 @@ def search(ctx, hints):
             vs.append(Violation("non_linear_correlations:" + key, what, inp, obs, req))
     for t in range(ctx.pick(40, 600)):
         cfg = {"seed": rng.randrange(1 << 30), "n": rng.randint(3, 50), "weights": rng.random() < 0.4, "kind": "r2"}
+        if t % 3 == 1:
+            cfg["scale"] = rng.choice([1e-9, 1e-7, 1e-4])
         bad = _check_r2(cfg)
         evals += 1
         nontriv.add(("r2", cfg["seed"], cfg["n"], cfg["weights"]))
